@@ -645,6 +645,9 @@ pub struct KnownHits {
 pub struct ConvStats {
     pub utc_probes: u64,
     pub tai_probes: u64,
+    pub zone_strings_judged: u64,
+    /// Set by the PRNG-free sweep: print and parse at every whole-second probe.
+    pub text_doors: bool,
     pub hits: KnownHits,
 }
 
@@ -892,6 +895,9 @@ pub fn conv_probe_utc(
             // (from 1900 on: before it the calendar code has a defect of its own, DESIGN.md 7)
         }
         if u % NS_PER_S == 0 && u >= 0 && u < 10_000_000_000 * NS_PER_S {
+        }
+        // (Text is slow: every whole second of the PRNG-free sweep, one in sixteen elsewhere.)
+        if u % NS_PER_S == 0 && u >= 0 && u < 10_000_000_000 * NS_PER_S && (st.text_doors || (u / NS_PER_S) % 16 == 0) {
             // ...and through text: the epoch printed in UTC (its own scale) and in TAI (`{:x}`),
             // read back, is this instant, and converts to the same TAI count.
             use core::str::FromStr;
@@ -913,6 +919,25 @@ pub fn conv_probe_utc(
                     }
                 }
             }
+            // ...and as local time with a zone designator: `hh:mm` later on the wall clock, marked
+            // `+hh:mm`, is the same UTC instant (the offset shifts the UTC reading, nothing else).
+            for (off_s, tz) in [(9 * 3600i128, "+09:00"), (-5 * 3600, "-05:00"), (5 * 3600 + 1800, "+05:30")] {
+                let (y, mo, d, h, mi, sec, _) = tai_epoch_ns(u + off_s * NS_PER_S).to_gregorian_tai();
+                let text = format!("{y:04}-{mo:02}-{d:02}T{h:02}:{mi:02}:{sec:02}{tz}");
+                // (where today's parser does not take the form, nothing is demanded)
+                if let Ok(b) = Epoch::from_str(&text) {
+                    if b.time_scale == TimeScale::UTC && (b.duration != e.duration || b.to_time_scale(TimeScale::TAI).duration != tai.duration) {
+                        return Err(format!(
+                            "UTC count {u} ns (a whole second): the local time {text:?} reads back as UTC {:?} / TAI {:?}",
+                            b.duration.to_parts(),
+                            b.to_time_scale(TimeScale::TAI).duration.to_parts()
+                        ));
+                    }
+                    st.zone_strings_judged += 1;
+                }
+            }
+        }
+        if u % NS_PER_S == 0 && u >= 0 && u < 10_000_000_000 * NS_PER_S {
             let (y, mo, d, h, mi, sec, ns) = e.to_gregorian_utc();
             let b = Epoch::from_gregorian_utc(y, mo, d, h, mi, sec, ns);
             if b.time_scale != TimeScale::UTC || b.duration != e.duration || b.to_time_scale(TimeScale::TAI).duration != tai.duration {
@@ -1091,6 +1116,13 @@ pub fn conv_scan_tai(
 
 /// The full, PRNG-free conversion sweep.
 pub fn conv_full_sweep(shipped: &[Entry], fixed: &[i128], known: Known, st: &mut ConvStats) -> Result<(), String> {
+    st.text_doors = true;
+    let r = conv_full_sweep_inner(shipped, fixed, known, st);
+    st.text_doors = false;
+    r
+}
+
+fn conv_full_sweep_inner(shipped: &[Entry], fixed: &[i128], known: Known, st: &mut ConvStats) -> Result<(), String> {
     let mut utc: Vec<i128> = Vec::new();
     let mut tai: Vec<i128> = Vec::new();
     let mut prev_t: Option<i128> = None;
